@@ -32,8 +32,7 @@ Ltac ndestr :=
   end; cbn [andb orb negb bind]; try reflexivity; try (exfalso; lia).
 
 (* ---------------- from_triplets ---------------- *)
-Definition g_triplet (r c : nat) (t : triplet) : bool :=
-  g_sp_from_triplets (Zn r) (Zn c) (Zn (trow t)) (Zn (tcol t)).
+Notation g_triplet r c t := (g_sp_from_triplets (Zn r) (Zn c) (Zn (trow t)) (Zn (tcol t))).
 
 Lemma drain_bad r c (L : list triplet) : forall d0,
   (exists t, In t L /\ ~ (trow t < r /\ tcol t < c)) -> foldM (drain_step r c) L d0 = Panic Guard.
@@ -48,7 +47,7 @@ Qed.
 Lemma rejects_sp_from_triplets r c (ts : list triplet) :
   (exists t, In t ts /\ g_triplet r c t = true) -> sp_from_triplets r c ts = Panic Guard.
 Proof.
-  intros (t & Hin & H). unfold g_triplet in H. g_true H guard_sp_from_triplets_lemma ok_sp_from_triplets.
+  intros (t & Hin & H). g_true H guard_sp_from_triplets_lemma ok_sp_from_triplets.
   unfold sp_from_triplets. rewrite drain_bad; [reflexivity|].
   exists t. split; [|lia]. apply (Permutation_in _ (Permutation_sym (sort_by_col_perm ts))). exact Hin.
 Qed.
@@ -57,7 +56,7 @@ Lemma accepts_sp_from_triplets r c (ts : list triplet) :
   exists s, sp_from_triplets r c ts = Ok s /\ wfS s /\ sp_rows s = r /\ sp_cols s = c.
 Proof.
   intros H. destruct (from_triplets_wf_lemma r c ts) as (s & E & W & R & C & _); [|eauto].
-  intros t Hin. specialize (H t Hin). unfold g_triplet in H.
+  intros t Hin. specialize (H t Hin).
   g_false H guard_sp_from_triplets_lemma ok_sp_from_triplets. lia.
 Qed.
 
